@@ -25,7 +25,7 @@
    [guarded] = [hardened] + the three patches of reports/C10C11-triage.md; [run] = [run_core] behind [gate] (Model/Build.v). *)
 From Coq Require Import String List Bool.
 From JMCV Require Import Model.FS Model.Build Proofs.FS Proofs.Build Proofs.BuildC10 Proofs.BuildC11 Proofs.BuildGate Proofs.BuildTick
-  Proofs.BuildCopy.
+  Proofs.BuildCopy Model.BuildPath Proofs.BuildPath Proofs.BuildOutSpelling.
 Import ListNotations.
 
 (* After a successful compile the output is what the same project gives from ANY other startable tree with the same
@@ -279,3 +279,42 @@ Example C11_copied_tag_build_rebuild :
     file_at s2 (load_path q_cfg) = Some (Tag ["lib:init"; "ns:__load__"]%string).
 Proof. exact q_build_rebuild. Qed.
 Print Assumptions C11_copied_tag_build_rebuild.
+
+(* (round 5) the way the output directory is REACHED - through a symbolic link (a pack folder linked into a world's datapacks
+   folder), a link chain, `..` after a link, a relative path - is irrelevant for every history of builds, killed ones
+   included: spellings that Path.resolve() maps to the same directory give the same header (every `#static` argument,
+   relative or absolute, denotes the same folder), so each step has the same plan, result and crash prefixes and leaves the
+   same tree.  With C11_fresh / C11_crash_recover (stated for the header [hdr_of E c rh]) the fresh-build-plus-statics
+   result therefore holds below a linked output directory as it does below a plain one. *)
+Theorem C11_output_spelling_irrelevant : forall v L o1 o2 c steps t,
+  resolve L [] o1 = resolve L [] o2 -> ns_unlinked (mkEnv L o1) c = true ->
+  hist v (mkEnv L o1) c steps t = hist v (mkEnv L o2) c steps t.
+Proof. exact hist_out_spelling. Qed.
+Print Assumptions C11_output_spelling_irrelevant.
+
+Theorem C11_output_spelling_same_build : forall v L o1 o2 c rh out fault t,
+  resolve L [] o1 = resolve L [] o2 -> ns_unlinked (mkEnv L o1) c = true ->
+  hdr_of (mkEnv L o1) c rh = hdr_of (mkEnv L o2) c rh /\
+  run_spelled v (mkEnv L o1) c rh out fault t = run_spelled v (mkEnv L o2) c rh out fault t /\
+  (forall ops, crash_trace (plan_spelled v (mkEnv L o1) c rh out fault t) ops ->
+               crash_trace (plan_spelled v (mkEnv L o2) c rh out fault t) ops).
+Proof.
+  intros. split; [apply hdr_of_out_spelling; auto|]. split; [apply run_out_spelling; auto|].
+  intros ops. apply crash_trace_out_spelling; auto.
+Qed.
+Print Assumptions C11_output_spelling_same_build.
+
+(* why it matters: a header that stores the LEXICALLY normalised static folder (os.path.abspath) while the deletion phase
+   compares link-resolved paths excepts nothing below a linked output directory - the rebuild deletes the hand-made file;
+   with the resolved spelling it stays, and a history build / kill after 3 operations / rebuild is the same through the
+   link `outlnk` and through `proj/../out` *)
+Example C11_lexical_static_lost :
+  static_lexical l_E p_cfg (rel ["keep"%string]) <> static_of l_E p_cfg (rel ["keep"%string]) /\
+  node_at l_after_lex ["."; "data"; "ns"; "keep"; "a.txt"]%string = None /\
+  node_at l_after ["."; "data"; "ns"; "keep"; "a.txt"]%string = Some (NFile (Raw "precious")) /\
+  (forall o c a, static_lexical (mkEnv [] o) c a = static_of (mkEnv [] o) c a).
+Proof.
+  destruct lexical_static_lost as (A & B & _ & C & _ & D). repeat split; auto.
+  rewrite A, B. discriminate.
+Qed.
+Print Assumptions C11_lexical_static_lost.
